@@ -124,7 +124,10 @@ CHECKS['C10'] = {
              "reachable state every refused replier is still being dealt with (rejection in the one-slot buffer, or the router at one of the three calls on its sink), or poll_close has "
              "completed on its sink - which only happens on a sink that had accepted the replier-already-bound frame - or its sink failed before the frame could be written. PROVED: on every "
              "accepted trace every replier that was ever bound is still the bound one or departed in that trace (its stream ended, or its sink failed on poll_ready / poll_flush): neither another "
-             "replier's registration, nor a rejected replier's failing sink, nor a request its own sink refuses unbinds it; the same is a predicate on implementation traces (obs_c10_rebind_justified)."),
+             "replier's registration, nor a rejected replier's failing sink, nor a request its own sink refuses unbinds it; the same is a predicate on implementation traces (obs_c10_rebind_justified). "
+             "PROVED: the sockets the router took from its registration channel are, as a multiset, those still waiting in its queue plus the bound repliers, the refused repliers and the keyed requestors "
+             "(no registration lost, none given two roles), and the decision rule where a replier's registration is taken from the queue: bound exactly when nobody is bound (so the next replier after a "
+             "departure is bound), otherwise refused with the bound replier kept."),
     'note': ROUTER_NOTE,
     'design': 'DESIGN.md section 3 C10',
 }
@@ -198,7 +201,7 @@ CHECKS['C11'] = {
              "any reply (never Ok); a register frame is either answered Ok with the socket in the queue of a router of exactly the messaging pattern asked for, or refused with INVALID_TOPIC_NAME / "
              "TOPIC_KIND_MISMATCH and nothing changed; never Ok-then-abandoned, never a panic, the lock always released; for every sequence of registrations the kind of an existing topic never "
              "changes and a registration that fits it is still served afterwards; the client library reports every first reply other than Ok as an error carrying the server's code. "
-             "PROVED on the router LTS: no sequence of frames of any kind from requestors/repliers/publishers in any schedule makes a router panic. TIED to the code: raw peers open streams with all eight "
+             "PROVED on the router LTS: no sequence of frames of any kind from requestors/repliers/publishers in any schedule makes a router panic. PROVED on the req/rep router LTS: every socket taken from the registration channel is still queued or was given a role (bound, refused, keyed) - none is dropped; on implementation histories obs_c11_replier_answered demands that every replier taken was served, told with the error frame, or failed. TIED to the code: raw peers open streams with all eight "
              "first-frame kinds on valid/invalid/reserved names in both messaging patterns and send unexpected and oversized-once-tagged frames mid-stream; the first reply of every stream is compared "
              "with the model's, and afterwards real clients must get service on every acknowledged topic and on a fresh one; the router simulations feed arbitrary frame kinds."),
     'note': "Partial where the runtime decides: QUIC stream closure, tokio::spawn and the wire encoding of replies are observed, not modelled; the __cloud feature branch is off and skipped. Reading adopted: a first frame without a topic may be closed with no reply.",
